@@ -337,6 +337,7 @@ def c06(tier):
               assumptions=["cfitsio implements the FITS standard for the calls used"])
     P = core.load(tier=tier, extra_units=selftest.UNITS)
     fs.run(P, C)
+    fs.fs6(P, C)
     ax.fs4(P, C)
     C.extra["units"] = sorted(P.units.keys())
     return C.finish()
